@@ -35,9 +35,11 @@ pub mod iterators;
 use std::vec::Vec;
 
 use crate::core_iterators::*;
-use crate::store::{Index, Position, Store};
+use crate::store::{Hole, Index, Position, Store};
 use crate::TryReserveError;
 use iterators::*;
+
+use indexmap::map::IndexMap;
 
 use std::borrow::Borrow;
 use std::cmp::{Eq, Ord};
@@ -576,8 +578,10 @@ where
         // add the new element in the qp vector as the last in the heap
         self.store.qp.push(Position(i));
         self.store.heap.push(Index(i));
-        self.bubble_up(Position(i), Index(i));
+        // the element is already in the heap (as last leaf):
+        // the size must be updated before user code (`Ord::cmp`) runs
         self.store.size += 1;
+        self.bubble_up(Position(i), Index(i));
         None
     }
 
@@ -903,81 +907,60 @@ where
         }
     }
 
-    fn bubble_up(&mut self, mut position: Position, map_position: Index) -> Position {
-        let priority = self.store.map.get_index(map_position.0).unwrap().1;
+    fn bubble_up(&mut self, position: Position, map_position: Index) -> Position {
+        let Store { map, heap, qp, .. } = &mut self.store;
+        let priority = map.get_index(map_position.0).unwrap().1;
+        // The hole is filled with `map_position` when it goes out of scope,
+        // also if a comparison panics.
+        let mut hole = unsafe { Hole::new(heap, qp, position, map_position) };
         if position.0 > 0 {
             let parent = parent(position);
-            let parent_priority = unsafe { self.store.get_priority_from_position(parent) };
-            let parent_index = unsafe { *self.store.heap.get_unchecked(parent.0) };
-            position = match (level(position) % 2 == 0, parent_priority < priority) {
+            let parent_index = unsafe { hole.index_at(parent) };
+            let parent_priority = map.get_index(parent_index.0).unwrap().1;
+            match (level(position) % 2 == 0, parent_priority < priority) {
                 // on a min level and greater then parent
                 (true, true) => {
-                    unsafe {
-                        *self.store.heap.get_unchecked_mut(position.0) = parent_index;
-                        *self.store.qp.get_unchecked_mut(parent_index.0) = position;
-                    }
-                    self.bubble_up_max(parent, map_position)
+                    unsafe { hole.move_from(parent) };
+                    Self::bubble_up_max(map, &mut hole, priority)
                 }
                 // on a min level and less then parent
-                (true, false) => self.bubble_up_min(position, map_position),
+                (true, false) => Self::bubble_up_min(map, &mut hole, priority),
                 // on a max level and greater then parent
-                (false, true) => self.bubble_up_max(position, map_position),
+                (false, true) => Self::bubble_up_max(map, &mut hole, priority),
                 // on a max level and less then parent
                 (false, false) => {
-                    unsafe {
-                        *self.store.heap.get_unchecked_mut(position.0) = parent_index;
-                        *self.store.qp.get_unchecked_mut(parent_index.0) = position;
-                    }
-                    self.bubble_up_min(parent, map_position)
+                    unsafe { hole.move_from(parent) };
+                    Self::bubble_up_min(map, &mut hole, priority)
                 }
             }
         }
-
-        unsafe {
-            // put the new element into the heap and
-            // update the qp translation table and the size
-            *self.store.heap.get_unchecked_mut(position.0) = map_position;
-            *self.store.qp.get_unchecked_mut(map_position.0) = position;
-        }
-        position
+        // the new element is put into the heap and the qp
+        // translation table is updated when the hole is dropped
+        hole.position()
     }
 
-    fn bubble_up_min(&mut self, mut position: Position, map_position: Index) -> Position {
-        let priority = self.store.map.get_index(map_position.0).unwrap().1;
-        let mut grand_parent = Position(0);
-        while if position.0 > 0 && parent(position).0 > 0 {
-            grand_parent = parent(parent(position));
-            (unsafe { self.store.get_priority_from_position(grand_parent) }) > priority
-        } else {
-            false
-        } {
-            unsafe {
-                let grand_parent_index = *self.store.heap.get_unchecked(grand_parent.0);
-                *self.store.heap.get_unchecked_mut(position.0) = grand_parent_index;
-                *self.store.qp.get_unchecked_mut(grand_parent_index.0) = position;
+    fn bubble_up_min(map: &IndexMap<I, P, H>, hole: &mut Hole, priority: &P) {
+        while hole.position().0 > 0 && parent(hole.position()).0 > 0 {
+            let grand_parent = parent(parent(hole.position()));
+            let grand_parent_index = unsafe { hole.index_at(grand_parent) };
+            if map.get_index(grand_parent_index.0).unwrap().1 > priority {
+                unsafe { hole.move_from(grand_parent) };
+            } else {
+                break;
             }
-            position = grand_parent;
         }
-        position
     }
 
-    fn bubble_up_max(&mut self, mut position: Position, map_position: Index) -> Position {
-        let priority = self.store.map.get_index(map_position.0).unwrap().1;
-        let mut grand_parent = Position(0);
-        while if position.0 > 0 && parent(position).0 > 0 {
-            grand_parent = parent(parent(position));
-            (unsafe { self.store.get_priority_from_position(grand_parent) }) < priority
-        } else {
-            false
-        } {
-            unsafe {
-                let grand_parent_index = *self.store.heap.get_unchecked(grand_parent.0);
-                *self.store.heap.get_unchecked_mut(position.0) = grand_parent_index;
-                *self.store.qp.get_unchecked_mut(grand_parent_index.0) = position;
+    fn bubble_up_max(map: &IndexMap<I, P, H>, hole: &mut Hole, priority: &P) {
+        while hole.position().0 > 0 && parent(hole.position()).0 > 0 {
+            let grand_parent = parent(parent(hole.position()));
+            let grand_parent_index = unsafe { hole.index_at(grand_parent) };
+            if map.get_index(grand_parent_index.0).unwrap().1 < priority {
+                unsafe { hole.move_from(grand_parent) };
+            } else {
+                break;
             }
-            position = grand_parent;
         }
-        position
     }
 
     fn up_heapify(&mut self, i: Position) {
